@@ -498,7 +498,236 @@ class Facts:
         self.by_path = {}
         for f in self.fns:
             self.by_path.setdefault(f["path"], []).append(f)
+        self.renamed = {}
+        self.renamed_fields = {}
+        try:
+            self._canonicalise_renames()
+        except Exception:       # the fallback must never make things worse: names that do not resolve fail closed in one_fn
+            self.renamed = {}
+        try:
+            self._canonicalise_field_renames()
+        except Exception:
+            self.renamed_fields = {}
+        self.renamed_locals = 0
+        try:
+            self._canonicalise_local_renames()
+        except Exception:
+            pass
         self.load_s = time.time() - t0
+
+    @staticmethod
+    def _bindings(f):
+        out = []
+        for pm in f.get("params", []):
+            out += [b for b in walk(pm["pat"]) if b.get("k") == "Binding"]
+        if f.get("body") is not None:
+            out += [b for b in walk(f["body"]) if b.get("k") == "Binding"]
+        return out
+
+    def _canonicalise_local_renames(self):
+        """Parameters and locals: tables/anchors.json records, per function, the sequence of (name, type) of its bindings in
+        source order.  When a function still has the same sequence of binding *types* but some names differ, the function
+        was edited by renaming variables (at least as far as its bindings go): those bindings get their recorded names back
+        (a few rules still recognise a role by the name the repository gives a local).  Any other difference — a binding
+        added, removed, retyped — leaves the function untouched."""
+        import re as _re
+        try:
+            with open(os.path.join(os.path.dirname(os.path.dirname(os.path.abspath(__file__))), "tables", "anchors.json")) as fh:
+                rec = json.load(fh).get("bindings") or {}
+        except (OSError, ValueError):
+            return
+        norm = lambda t: _re.sub(r"'[a-z_0-9]+", "'_", t or "")
+        n = 0
+        for f in self.fns:
+            row = rec.get(f["path"])
+            if row is None or f["kind"] not in ("Fn", "AssocFn"):
+                continue
+            bs = self._bindings(f)
+            if len(bs) != len(row) or any(norm(b.get("ty")) != norm(t) for b, (_n, t) in zip(bs, row)):
+                continue
+            ren = {b["hid"]: nm for b, (nm, _t) in zip(bs, row) if b.get("name") != nm}
+            if not ren:
+                continue
+            n += len(ren)
+            for x in list(walk(f.get("body") or {})) + [y for pm in f.get("params", []) for y in walk(pm["pat"])]:
+                if x.get("k") == "Binding" and x.get("hid") in ren:
+                    x["name"] = ren[x["hid"]]
+                elif x.get("k") == "Path" and isinstance(x.get("res"), dict) and x["res"].get("r") == "local" and x["res"].get("hid") in ren:
+                    x["res"]["name"] = ren[x["res"]["hid"]]
+        self.renamed_locals = n
+
+    def _canonicalise_field_renames(self):
+        """Same idea for struct / enum-variant fields: tables/anchors.json records the (name, type) list of every ADT of
+        the crate on the reviewed tree.  A field whose recorded name is gone while the field at the same position has the
+        same type and a name the record does not know is that field renamed; the facts are rewritten to the recorded name
+        (ADT record, HIR field accesses / struct literals / struct patterns of that ADT, MIR aggregates, and MIR
+        projections when the new name is unique in the crate)."""
+        import re as _re
+        try:
+            with open(os.path.join(os.path.dirname(os.path.dirname(os.path.abspath(__file__))), "tables", "anchors.json")) as fh:
+                rec = json.load(fh).get("adt_fields") or {}
+        except (OSError, ValueError):
+            return
+        norm = lambda t: _re.sub(r"'[a-z_0-9]+", "'_", t or "")
+        ren = {}       # adt path -> {new: old}
+        for path, variants in rec.items():
+            a = self.adts.get(path)
+            if a is None:
+                continue
+            for v in a["variants"]:
+                old_fields = variants.get(v["name"])
+                if old_fields is None or len(old_fields) != len(v["fields"]):
+                    continue
+                old_names = {n for n, _t in old_fields}
+                cur_names = {f["name"] for f in v["fields"]}
+                for (on, ot), f in zip(old_fields, v["fields"]):
+                    if f["name"] != on and on not in cur_names and f["name"] not in old_names and norm(f["ty"]) == norm(ot) and not on.isdigit():
+                        ren.setdefault(path, {})[f["name"]] = on
+                        f["name"] = on
+        if not ren:
+            return
+        all_new = {}
+        for path, m in ren.items():
+            for n, o in m.items():
+                all_new.setdefault(n, []).append((path, o))
+        every_field = {}
+        for a in self.adts.values():
+            for v in a["variants"]:
+                for f in v["fields"]:
+                    every_field[f["name"]] = every_field.get(f["name"], 0) + 1
+        mir_safe = {n: po[0][1] for n, po in all_new.items() if len(po) == 1 and every_field.get(n, 0) == 0}
+
+        def adt_of(ty):
+            t = (ty or "").replace("&mut ", "").replace("&", "").strip()
+            prev = None
+            while prev != t:
+                prev = t
+                t = _re.sub(r"<[^<>]*>", "", t)
+            return t
+
+        def fix(o):
+            if isinstance(o, dict):
+                k = o.get("k")
+                if k == "Field" and "name" in o and adt_of(o.get("base_ty")) in ren and o["name"] in ren[adt_of(o.get("base_ty"))]:
+                    o["name"] = ren[adt_of(o["base_ty"])][o["name"]]
+                if k == "Struct" and o.get("adt") in ren and isinstance(o.get("fields"), list):
+                    m = ren[o["adt"]]
+                    for item in o["fields"]:
+                        if isinstance(item, list) and item and item[0] in m:
+                            item[0] = m[item[0]]
+                if k == "Aggregate" and o.get("adt") in ren and isinstance(o.get("fields"), list):
+                    m = ren[o["adt"]]
+                    o["fields"] = [m.get(x, x) for x in o["fields"]]
+                if "p" in o and isinstance(o["p"], list) and "l" in o:
+                    o["p"] = [("." + mir_safe[x[1:]]) if isinstance(x, str) and x.startswith(".") and x[1:] in mir_safe else x for x in o["p"]]
+                for v in o.values():
+                    if isinstance(v, (dict, list)):
+                        fix(v)
+            elif isinstance(o, list):
+                for v in o:
+                    fix(v)
+        for f in self.fns:
+            fix(f)
+        self.renamed_fields = ren
+
+    def _canonicalise_renames(self):
+        """Rules address a number of non-public functions by name.  A pure rename of such a function (same owner type,
+        same signature, same callers) is not a change of behaviour: when a recorded name no longer resolves and exactly one
+        function matches its recorded role, the facts are rewritten so that it appears under its recorded name again
+        (function record, closures, resolved callees in HIR and MIR).  tables/anchors.json, generated from the reviewed
+        tree, holds the roles.  Ambiguity of any kind leaves the facts untouched."""
+        import re as _re
+        try:
+            with open(os.path.join(os.path.dirname(os.path.dirname(os.path.abspath(__file__))), "tables", "anchors.json")) as fh:
+                table = json.load(fh)["anchors"]
+        except (OSError, ValueError, KeyError):
+            return
+        have = {}
+        for f in self.fns:
+            if f["kind"] in ("Fn", "AssocFn"):
+                have.setdefault(f["name"], []).append(f)
+        # a free function moved to another module keeps its name but changes its def-path (which violation keys carry)
+        moved = {}
+        for key, row in table.items():
+            name = key.split("|")[0]
+            if row["self_adt"] == "" and row.get("vis") != "pub":
+                cur = [g for g in have.get(name, []) if not g.get("self_adt")]
+                if len(cur) == 1 and cur[0]["path"] != row["path"] and self._sig(cur[0]) == row["sig"] and row["path"] not in self.by_path:
+                    moved[cur[0]["path"]] = row["path"]
+        if moved:
+            def fixp(o):
+                if isinstance(o, dict):
+                    for k, v in o.items():
+                        if isinstance(v, str):
+                            if k in ("callee", "inst", "path", "parent", "def", "func", "fn"):
+                                for a_, b_ in moved.items():
+                                    if v == a_ or v.startswith(a_ + "::") or v.startswith(a_ + "<"):
+                                        o[k] = b_ + v[len(a_):]
+                        else:
+                            fixp(v)
+                elif isinstance(o, list):
+                    for v in o:
+                        fixp(v)
+            for f in self.fns:
+                fixp(f)
+            self.by_path = {}
+            for f in self.fns:
+                self.by_path.setdefault(f["path"], []).append(f)
+            self.moved = moved
+        missing = []
+        for key, row in table.items():
+            name = key.split("|")[0]
+            if row.get("vis") == "pub":
+                continue
+            if not any((g.get("self_adt") or "") == row["self_adt"] for g in have.get(name, [])):
+                missing.append((name, row))
+        if not missing:
+            return
+        known = {k.split("|")[0] for k in table}
+        todo = {}
+        for name, row in missing:
+            cands = []
+            for g in self.fns:
+                if g["kind"] not in ("Fn", "AssocFn") or g["name"] in known or len(have.get(g["name"], [])) != 1:
+                    continue
+                if (g.get("self_adt") or "") != row["self_adt"] or self._sig(g) != row["sig"]:
+                    continue
+                callers = sorted("<self>" if c == g["name"] else c for c in self.callers_of(g["name"]))
+                if callers == row["callers"]:
+                    cands.append(g)
+            if len(cands) == 1 and cands[0]["name"] not in todo:
+                todo[cands[0]["name"]] = name
+        if not todo:
+            return
+        pat = _re.compile(r"(?<![A-Za-z0-9_])(%s)(?![A-Za-z0-9_])" % "|".join(_re.escape(n) for n in todo))
+
+        def fix(o):
+            if isinstance(o, dict):
+                for k, v in o.items():
+                    if isinstance(v, str):
+                        if k in ("callee", "inst", "path", "parent", "def", "func", "fn", "name_path") and pat.search(v):
+                            o[k] = pat.sub(lambda m: todo[m.group(1)], v)
+                        elif k == "method" and v in todo and pat.search(o.get("callee") or ""):
+                            o[k] = todo[v]
+                    else:
+                        fix(v)
+            elif isinstance(o, list):
+                for v in o:
+                    fix(v)
+        for f in self.fns:
+            if f["kind"] in ("Fn", "AssocFn") and f["name"] in todo:
+                f["name"] = todo[f["name"]]
+            # order matters: `method` looks at the not yet rewritten callee
+            fix_m = [f.get("body"), f.get("mir")]
+            for part in fix_m:
+                _fix_methods(part, todo, pat)
+            fix(f)
+        self.renamed = {v: k for k, v in todo.items()}
+        self.by_path = {}
+        for f in self.fns:
+            self.by_path.setdefault(f["path"], []).append(f)
+        if hasattr(self, "_callers"):
+            del self._callers
 
     # --- anchors (fail closed) -------------------------------------------
     def fn(self, path):
@@ -532,7 +761,36 @@ class Facts:
         fs = self.find_fns(**kw)
         if len(fs) != 1:
             raise CheckError("anchor function: expected exactly one match for %r, got %d (%s)" % (kw, len(fs), [f["path"] for f in fs][:6]))
+        if getattr(self, "anchor_log", None) is not None:
+            self.anchor_log.append((dict(kw), fs[0]))
         return fs[0]
+
+    # --- a private function that was merely renamed is still the same anchor ------------------------------------
+    @staticmethod
+    def _sig(f):
+        import re as _re
+        norm = lambda t: _re.sub(r"'[a-z_0-9]+", "'_", t or "")
+        return [norm(pm.get("ty")) for pm in f.get("params", [])] + ["->", norm(f.get("ret"))]
+
+    def callers_of(self, name):
+        """names of the functions whose bodies call a function called `name` (by resolved callee's last path segment)"""
+        if not hasattr(self, "_callers"):
+            import re as _re
+            idx = {}
+            for g in self.fns:
+                if g.get("body") is None:
+                    continue
+                gname = g["path"] if g["kind"] != "Closure" else (g.get("parent") or g["path"])
+                for c in walk(g["body"]):
+                    if c.get("k") in ("Call", "MethodCall") and c.get("callee"):
+                        cal = c["callee"]
+                        prev = None
+                        while prev != cal:
+                            prev = cal
+                            cal = _re.sub(r"::<[^<>]*>|<[^<>]*>", "", cal)
+                        idx.setdefault(cal.split("::")[-1], set()).add(gname.split("::{closure")[0].split("::")[-1])
+            self._callers = idx
+        return self._callers.get(name, set())
 
     def adt(self, path):
         a = self.adts.get(path)
@@ -553,6 +811,18 @@ class Facts:
     def loc(self, fn, node=None):
         sp = (node or fn).get("csp") or (node or fn).get("sp") or fn["sp"]
         return "%s:%d" % (fn["file"], sp[0])
+
+
+def _fix_methods(o, todo, pat):
+    if isinstance(o, dict):
+        if o.get("k") == "MethodCall" and o.get("method") in todo and pat.search(o.get("callee") or ""):
+            o["method"] = todo[o["method"]]
+        for v in o.values():
+            if isinstance(v, (dict, list)):
+                _fix_methods(v, todo, pat)
+    elif isinstance(o, list):
+        for v in o:
+            _fix_methods(v, todo, pat)
 
 
 _cached = {}
